@@ -26,7 +26,16 @@
      ([for_loop] over [nrange]); [while]/[do-while] loops and [for] loops whose condition reads
      memory are [while]/[do_while] with fuel (the fuel is never the reason a loop stops: theorem
      statements exclude [Undef OutOfFuel]).
-   The C statement each piece stands for is quoted next to it. *)
+   * asserts: numbered 1..10 top to bottom in make_tree(); assert 4 (k == MAX_CODE_LENGTH + 1) and
+     assert 8 (k == HUFF_START_WIDTH + 1) only restate the exit value of the preceding for loop and
+     are built into the model (the next loop starts from that value);
+   * rs->code_len[] is the list L of its declared length MAX_ALPHA_SIZE, of which make_tree() reads the
+     first n = rs->alpha_size entries; the tree T passed in carries arbitrary previous contents
+     (the retriever state comes from xmalloc(), and a tree slot is reused from block to block);
+   * not modelled: the counter w of valid bits in DUMP(k) (unsigned, no undefined event; the theorems
+     take "v < 2^64 - 1", which follows from w <= 63, as a precondition on the buffer value).
+   The C statement each piece stands for is quoted next to it.
+   Tied to src/decode.c by checks/safe_tree.py (harness/safe_h_tree.c vs the extraction of this file). *)
 From Coq Require Import List NArith Arith Bool.
 From LBZ Require Import Gen.Consts Gen.DecTabs.
 Import ListNotations.
